@@ -103,7 +103,8 @@ func (s *TcpServer) Close() {
 	close(s.done)
 	s.wg.Wait()
 	close(s.backlog)
-	close(s.errors)
+	// s.errors is shared with every accepted connection, which reports its terminal error on it
+	// long after the listener is gone: the receiving side must not close it
 	s.backlog = nil
 	s.errors = nil
 	s.lns = nil
